@@ -474,7 +474,34 @@ def _hyp():
     return base()
 
 
+def big_cases(tier):
+    """Large bodies (several zstd blocks / deflate windows) cut near the end or inside: every tail x framing."""
+    k = 0
+    for coding, members in ((["zstd"], 1), (["gzip"], 1), (["deflate"], 1), (["gzip", "zstd"], 1), (["zstd"], 2)):
+        for framing in ("cl", "chunked", "close"):
+            for tail in TAILS + [["data", None]]:
+                t = list(tail)
+                if t[0] in ("readloop", "read1loop", "readintoloop", "stream", "read_chunked") and t[1] in (1, 2, 3, 7):
+                    t[1] = 5000
+                for mut in ({"m": "trunc", "drop": 1}, {"m": "trunc", "drop": 5}, {"m": "trunc", "drop": 700}, {"m": "flip", "at": -3, "xor": 9}):
+                    k += 1
+                    if tier == "quick" and k % 2:
+                        continue
+                    via = "pool-preload" if t[0] == "data" else ("conn", "pool")[k % 2]
+                    from props import c12
+
+                    case = mk(300000, k % 7, coding, members, framing, [16384] if framing == "chunked" else [], False, (4096, None)[k % 2], True, [], t, via, mut)
+                    if c12.valid(case):
+                        yield case
+
+
 def shards(tier, seed):
+    nbig = sum(1 for _ in big_cases(tier))
+    big = [{"part": "big", "tier": tier, "lo": a, "hi": b} for a, b in core.split_range(nbig, 16)]
+    return big + _shards(tier, seed)
+
+
+def _shards(tier, seed):
     total = sum(1 for _ in ex_cases(tier))
     out = [{"part": "exhaustive", "tier": tier, "lo": a, "hi": b} for a, b in core.split_range(total, 32 if tier == "quick" else 96)]
     n = _scale(160 if tier == "quick" else 6000)
@@ -508,6 +535,10 @@ def run_shard(spec):
                 continue
             for mut in mutations(base, True, i):
                 _eval(col, dict(base, mut=mut), distinct=True)
+    elif spec["part"] == "big":
+        for i, case in enumerate(big_cases(spec["tier"])):
+            if spec["lo"] <= i < spec["hi"]:
+                _eval(col, case)
     else:
 
         def body(base):
